@@ -92,6 +92,16 @@ def dtype_of(t):
     if isinstance(t, str):
         if t in _STR_DTYPES:
             return DType(*_STR_DTYPES[t])
+        try:
+            import numpy as np
+
+            d = np.dtype(t)  # other spellings of the same types ('m8[s]', '<f8', 'u1', ...)
+        except Exception:  # noqa: BLE001
+            raise Unsupported("dtype string %r" % t) from None
+        if d.kind in "mM":
+            return DType(d.kind, np.datetime_data(d)[0])
+        if (d.kind, d.itemsize) in (("f", 8), ("i", 8), ("u", 1), ("b", 1)):
+            return DType(d.kind)
         raise Unsupported("dtype string %r" % t)
     if t is float or t is bm.model_float:
         return DType("f")
@@ -349,6 +359,29 @@ class Arr:
         g, k = self.getter(), self.kind
         return (IdxSet(self.n, lambda i: _truth_pair(g(i), k)),)
 
+    def _np(self, name, *a, **k):
+        from . import npfuncs
+
+        f = getattr(npfuncs, "np_" + name, None)
+        if f is None:
+            raise Unsupported("numpy.ndarray.%s is not modelled" % name)
+        return f(self, *a, **k)
+
+    def mean(self, *a, **k):
+        return self._np("mean", *a, **k)
+
+    def std(self, *a, **k):
+        return self._np("std", *a, **k)
+
+    def min(self, *a, **k):  # noqa: A003
+        return self._np("min", *a, **k)
+
+    def max(self, *a, **k):  # noqa: A003
+        return self._np("max", *a, **k)
+
+    def ptp(self, *a, **k):
+        return self._np("ptp", *a, **k)
+
     def tolist(self):
         n = alg.as_concrete(self.n)
         if n is None:
@@ -454,11 +487,9 @@ class Arr:
 
     def __getattr__(self, attr):
         # an ndarray attribute the model does not cover: the function is undecided, not "raises AttributeError"
-        if attr.startswith("_") or attr in ("to_numpy", "values", "dt", "tz", "calls", "fn", "fv", "fsec", "fns", "fnat", "ns", "secs", "base", "off"):
-            raise AttributeError(attr)
-        if active():
-            cur().unsupported_here("numpy.ndarray.%s is not modelled" % attr)
-        raise AttributeError(attr)
+        from .ctx import unknown_attr
+
+        return unknown_attr("numpy.ndarray", attr, ("calls", "fn", "fv", "fsec", "fns", "fnat", "ns", "secs", "base", "off", "is_input", "name", "readonly", "telescopes", "diff_of", "frame"))
 
     def __repr__(self):
         return "Arr<%s,n=%s>" % (self.kind, self.n)
@@ -707,7 +738,7 @@ _CMP = {"lt": alg.lt, "le": alg.le, "gt": alg.gt, "ge": alg.ge}
 def _res_kind(op, k1, k2):
     if op in ("lt", "le", "gt", "ge", "eq", "ne"):
         return "b"
-    if op in ("and", "or"):
+    if op in ("and", "or", "xor"):
         if k1 == "b" and k2 == "b":
             return "b"
         raise Unsupported("bitwise op on non-bool")
@@ -732,9 +763,9 @@ def pair_op(op, a, b, ka="f", kb="f"):
     """elementwise operation on (nan, val) pairs - raw ndarray semantics"""
     an, av = a
     bn, bv = b
-    if ka == "b" and op not in ("and", "or", "eq", "ne"):
+    if ka == "b" and op not in ("and", "or", "xor", "eq", "ne"):
         av = alg.ite(av, 1, 0)
-    if kb == "b" and op not in ("and", "or", "eq", "ne"):
+    if kb == "b" and op not in ("and", "or", "xor", "eq", "ne"):
         bv = alg.ite(bv, 1, 0)
     if op in _ARITH:
         return (alg.or_(an, bn), _ARITH[op](av, bv))
@@ -764,6 +795,8 @@ def pair_op(op, a, b, ka="f", kb="f"):
         return (False, alg.and_(av, bv))
     if op == "or":
         return (False, alg.or_(av, bv))
+    if op == "xor":
+        return (False, alg.xor(av, bv))
     if op == "minimum":
         # np.minimum propagates NaN
         return (alg.or_(an, bn), alg.min_(av, bv))
@@ -1004,6 +1037,11 @@ class Selection:
     """a[boolmask] (a copy holding the selected elements in order).  Kept in the canonical
     form (base contents, selection predicate); only whole-selection uses are modelled."""
 
+    def __getattr__(self, attr):
+        from .ctx import unknown_attr
+
+        return unknown_attr("numpy.ndarray", attr, ("calls", "fn", "fv", "fsec", "fns", "fnat", "ns", "secs", "base", "off", "is_input", "name", "readonly", "telescopes", "diff_of", "frame"))
+
     __hash__ = None
 
     def __init__(self, base, sel):
@@ -1195,6 +1233,11 @@ def count_true(n, pred, name="cnt"):
 class MArr:
     """numpy.ma.MaskedArray (1-D).  mask None = nomask."""
 
+    def __getattr__(self, attr):
+        from .ctx import unknown_attr
+
+        return unknown_attr("numpy.ma.MaskedArray", attr, ("calls", "fn", "fv", "fsec", "fns", "fnat", "ns", "secs", "base", "off", "is_input", "name", "readonly", "telescopes", "diff_of", "frame"))
+
     ndim = 1
     __hash__ = None
     __array_priority__ = 15
@@ -1271,6 +1314,10 @@ class MArr:
         d = self._data.reshape(*shape)
         m = None if self._mask is None else View(self._mask, 0, self._mask.n)
         return MArr(d, m)
+
+    def ravel(self):
+        # 1-D: a new masked array over the same data and mask (as reshape to its own shape)
+        return self.reshape(self._data.n)
 
     def astype(self, t):
         d = dtype_of(t)
@@ -1675,6 +1722,11 @@ def masked_where_invalid(a, copy=True):
 
 class Arr2:
     """2-D strided window (flat_line_test only): rows x cols, elem(r, c)"""
+
+    def __getattr__(self, attr):
+        from .ctx import unknown_attr
+
+        return unknown_attr("numpy.ndarray", attr, ("calls", "fn", "fv", "fsec", "fns", "fnat", "ns", "secs", "base", "off", "is_input", "name", "readonly", "telescopes", "diff_of", "frame"))
 
     ndim = 2
 
